@@ -51,6 +51,28 @@ K_BAD   == 6
 
 BmOps == {"Wake", "BatchStart", "GetHash", "FilterMatch", "GetBlock", "Tail"}
 
+\* The calls the batch manager makes to its ENVIRONMENT (BestSnapshot,
+\* GetBlockHash, BlockFilterMatches -> GetCFilter, GetBlock): each is one
+\* unit of work of unbounded cost (a database read, a filter match over the
+\* watch list, a network round trip).  Wake is the condition variable, not
+\* an environment call.
+EnvOps == BmOps \ {"Wake"}
+
+\* C17 "Stopping the client returns within a bounded time from any state ...
+\* with ... UTXO scans ... in flight".  In the gated driver "time" is exact
+\* and independent of the machine: the NUMBER of environment calls the scan
+\* still makes after Stop was called (quit closed) until the batch manager
+\* has returned.  "Bounded" = bounded by a constant that does not depend on
+\* how many heights the scan still has in front of it.  The constant used:
+\* the call that is in flight when Stop is called plus one complete round of
+\* the per-height calls (hash, filter, block).  An implementation that looks
+\* at the quit channel only once per height stays within it; one that walks
+\* on to the tip exceeds it on every chain with more than two heights left
+\* (>= 2 calls per remaining height).  The chains of the C17 slice leave up
+\* to seven heights.
+PerHeightCalls == 3
+StopWorkBound  == 1 + PerHeightCalls
+
 ----------------------------------------------------------------------------
 \* The statement's case analysis.  Positions <<height, tx position, input
 \* position>> of every input of the chain between heights lo and hi.
@@ -125,7 +147,8 @@ NewAns(o, o2, i) ==
 \* with or without each of those blocks - either reading is accepted.  With
 \* no such answer in the trace (stale = {}) nothing changes.  A filter fetch
 \* that FAILS (res "fail") says nothing about the chain: the block stays.
-AbsInit == [quit |-> FALSE, due |-> {}, over |-> {}, stale |-> {}]
+\* `post`: environment calls answered after Stop was called (C17, above).
+AbsInit == [quit |-> FALSE, due |-> {}, over |-> {}, stale |-> {}, post |-> 0]
 
 AbsNext(a, act, o2) ==
   [quit |-> a.quit \/ act.op = "Stop",
@@ -134,7 +157,8 @@ AbsNext(a, act, o2) ==
    over |-> IF act.op = "Tail" /\ act.res = "done"
             THEN a.due \cap Unanswered(o2) ELSE a.over,
    stale |-> IF act.op = "FilterMatch" /\ act.res = "stale"
-             THEN a.stale \cup {act.a} ELSE a.stale]
+             THEN a.stale \cup {act.a} ELSE a.stale,
+   post |-> IF a.quit /\ act.op \in EnvOps THEN a.post + 1 ELSE a.post]
 
 Legal(x, r, act, a2, o2) ==
   CASE x[1] = K_SHUT -> a2.quit                       \* "or the client shuts down"
@@ -163,6 +187,14 @@ Viol(a, o, act, a2, o2) ==
   (IF act.op = "Tail" /\ act.res = "done" /\
         \E i \in a.over \cap a.due \cap Unanswered(o2) : o2.reqs[i].start > o2.best
    THEN {"NoCallerLeftWaitingAboveTip"} ELSE {})
+  \cup
+  \* C17 (reported by the C17 check, not by C10): the work the scan does after
+  \* Stop was called is bounded independently of the heights left
+  (IF a2.post > StopWorkBound THEN {"StopBoundedWork"} ELSE {})
+  \cup
+  \* C17: Stop returns - once Stop was called neither the batch manager nor
+  \* Stop itself may be found stuck (driver bound: >= 100x a normal step)
+  (IF a2.quit /\ o2.pc = PC_HUNG THEN {"StopReturnsDuringScan"} ELSE {})
 
 \* Liveness at the end of a finite trace: if the trace ends quiescent every
 \* request must have exactly one answer.
